@@ -28,7 +28,8 @@ CLAIMS.update({
         text=("For every public function/method and every parameter the FX analysis (per-branch states, loop fixpoints, view/alias "
               "tracking through numpy view operations, out= arguments, attribute stores, repo callees via summaries, constructor "
               "arguments kept on self) shows that no in-place sink can reach the argument object; module/class/function state, "
-              "memoisation and mutated mutable defaults are excluded structurally. Batch clause: for the documented trailing-axes functions "
+              "memoisation and mutated mutable defaults are excluded structurally, and no method modifies in place an attribute that only "
+              "the constructor assigns (P2.instance-config). Batch clause: for the documented trailing-axes functions "
               "(Fourier wrappers, temporal power spectrum, profile integrals) nothing on the backward slice of the result reads a leading "
               "axis (shape index >= 0, len, size, non-negative or all-axes axis argument, subscripts not starting with an Ellipsis); the "
               "rank-dispatching image functions, and the helpers they hand the whole stack to, take no all-axes reduction or element move "
@@ -161,7 +162,8 @@ CLAIMS.update({
               "sensor's count and its conditioning argument; with the pseudo-inverse lemma this is the normal-equation solution on "
               "the retained subspace for every PSD input; every path of the wrapper recomputes from the current matrix (no stale cache). "
               "Duplicate-sensor clause: only its structural part (the builder carries nothing from one sensor's iteration to the next and "
-              "places the four slope-kind blocks of every sensor pair at that pair's offsets, helper methods included); "
+              "places the four slope-kind blocks of every sensor pair at that pair's offsets, helper methods included; every sensor's sub-apertures "
+              "are projected onto a layer by the same geometric rule from its own current direction and altitude); "
               "the covariance values themselves are C01's subject."),
         note="Trusted: B M^+ solves R M = B on range(M) and minimises the residual (pinv contract)."),
     "C03": dict(
@@ -188,7 +190,8 @@ CLAIMS.update({
         technique="static analysis: normal form of the step function (row prepend + crop) and of the exposed view; effect summaries (who writes which attribute, read-only accessors); draw count per path; size relations incl. loop-exit condition of find_allowed_size",
         text=("After any history: add_row rebinding is concat([new_row, screen])[:stencil_length, :nx_size] with a (1, nx_size) row, the "
               "exposed view crops to the requested size on both axes, readers (scrn, __repr__) write nothing and draw nothing, only "
-              "make_initial_screen/add_row write the screen, exactly one draw of nx_size per row, requested <= nx_size <= "
+              "make_initial_screen/add_row write the screen, exactly one draw of nx_size per row, every new row is A.Z + B.b "
+              "(Fried: A.(Z - rho) + B.b + rho) of the current screen's stencil values, requested <= nx_size <= "
               "stencil_length. Finiteness and spectral stability of the recursion are not decided."),
         note="Trusted: numpy.append/concatenate semantics; FX tables."),
     "C06": dict(
